@@ -79,6 +79,7 @@ func C15(ctx *core.Ctx, r *core.Report) {
 	}
 	clo := wv.AnonFuncs[0]
 	escaperNotBypassed(ctx, r)
+	c15RequestPathsAgree(ctx, r)
 	borrowFrom(ctx, r, "C10", C10, "lossy-convert")
 	c15DeferredErrorIsTheResult(ctx, r)
 	c15IdentityrefPrefixByModuleOnly(ctx, r)
